@@ -419,7 +419,9 @@ func pgArbitraryBlobs(rnd *mrand.Rand, genuine [][]byte, n int) [][]byte {
 		case 3: // genuine node with a flipped byte
 			if len(genuine) > 0 {
 				b := append([]byte{}, genuine[rnd.Intn(len(genuine))]...)
-				b[rnd.Intn(len(b))] ^= byte(1 << uint(rnd.Intn(8)))
+				if len(b) > 0 {
+					b[rnd.Intn(len(b))] ^= byte(1 << uint(rnd.Intn(8)))
+				}
 				out = append(out, b)
 			}
 		default: // genuine node truncated or extended
@@ -435,6 +437,122 @@ func pgArbitraryBlobs(rnd *mrand.Rand, genuine [][]byte, n int) [][]byte {
 		}
 	}
 	return out
+}
+
+// pgChooser abstracts the source of structural choices so that the same case
+// construction runs under rapid and under the raw-bytes native fuzz target.
+type pgChooser interface {
+	Intn(n int) int // value in [0,n); n <= 1 yields 0
+}
+
+type pgRapidChooser struct{ rt *rapid.T }
+
+func (c pgRapidChooser) Intn(n int) int {
+	if n <= 1 {
+		return 0
+	}
+	return rapid.IntRange(0, n-1).Draw(c.rt, "c")
+}
+
+type pgByteChooser struct {
+	data []byte
+	pos  int
+}
+
+func (c *pgByteChooser) Intn(n int) int {
+	if n <= 1 {
+		return 0
+	}
+	v := 0
+	if c.pos < len(c.data) {
+		v = int(c.data[c.pos])
+		c.pos++
+	}
+	if n > 256 && c.pos < len(c.data) {
+		v = v<<8 | int(c.data[c.pos])
+		c.pos++
+	}
+	return v % n
+}
+
+func (c *pgByteChooser) exhausted() bool { return c.pos >= len(c.data) }
+
+// pgSibling derives a world that differs from w in 1..3 entries (same key length),
+// so that its nodes are plausible foreign nodes and its root a plausible wrong root.
+func pgSibling(t pgFataler, w *pgWorld, ch pgChooser, rnd *mrand.Rand) *pgWorld {
+	ents := append([]pgKV{}, w.Ents...)
+	for m := 1 + ch.Intn(3); m > 0; m-- {
+		switch op := ch.Intn(3); {
+		case op == 0 && len(ents) > 1: // delete
+			i := ch.Intn(len(ents))
+			ents = append(ents[:i:i], ents[i+1:]...)
+		case op == 1 && len(ents) > 0: // change value
+			i := ch.Intn(len(ents))
+			v := make([]byte, 1+rnd.Intn(40))
+			rnd.Read(v)
+			ents[i] = pgKV{K: ents[i].K, V: v}
+		default: // add
+			k := make([]byte, w.KeyLen)
+			rnd.Read(k)
+			if len(ents) > 0 && w.KeyLen > 1 && rnd.Intn(2) == 0 {
+				k = pgSpliceNibbles(ents[rnd.Intn(len(ents))].K, k, 1+rnd.Intn(2*w.KeyLen-1))
+			}
+			dup := false
+			for _, e := range ents {
+				if bytes.Equal(e.K, k) {
+					dup = true
+				}
+			}
+			if !dup {
+				v := make([]byte, 1+rnd.Intn(40))
+				rnd.Read(v)
+				ents = append(ents, pgKV{K: k, V: v})
+			}
+		}
+	}
+	b, err := pgBuildWorld("sibling-of-"+w.Class, w.KeyLen, ents, rnd, false)
+	if err != nil {
+		t.Fatalf("VERIF-HARNESS-BUG: %v", err)
+	}
+	return b
+}
+
+// pgWorldFromBytes builds a world directly from fuzzer bytes: the fuzzer controls
+// key length, entry count and the leading bytes of every key (the trie shape).
+func pgWorldFromBytes(t pgFataler, ch *pgByteChooser) *pgWorld {
+	keyLen := []int{1, 2, 4, 32}[ch.Intn(4)]
+	n := 1 + ch.Intn(48)
+	seen := map[string]bool{}
+	var ents []pgKV
+	for i := 0; i < n && !ch.exhausted(); i++ {
+		k := make([]byte, keyLen)
+		ctl := min(keyLen, 3)
+		for x := 0; x < ctl; x++ {
+			k[x] = byte(ch.Intn(256))
+		}
+		if keyLen > ctl {
+			h := reftrie.Keccak256(k[:ctl], []byte{byte(i)})
+			copy(k[ctl:], h[:])
+			if keyLen == 32 && ch.Intn(4) == 0 && len(ents) > 0 {
+				k = pgSpliceNibbles(ents[ch.Intn(len(ents))].K, k, 1+ch.Intn(63))
+			}
+		}
+		if seen[string(k)] {
+			continue
+		}
+		seen[string(k)] = true
+		vl := pgValLens[ch.Intn(len(pgValLens))]
+		v := bytes.Repeat([]byte{byte(i + 1)}, vl)
+		ents = append(ents, pgKV{K: k, V: v})
+	}
+	if len(ents) == 0 {
+		return nil
+	}
+	w, err := pgBuildWorld(fmt.Sprintf("bytes%d", keyLen), keyLen, ents, nil, ch.Intn(4) == 0)
+	if err != nil {
+		t.Fatalf("VERIF-HARNESS-BUG: %v", err)
+	}
+	return w
 }
 
 // ---- independent reference proof walk (refrlp + x/crypto keccak, no geth code) ----
@@ -459,78 +577,79 @@ func pgRefHPDecode(c []byte) (nib []byte, term bool, ok bool) {
 	return nib, term, true
 }
 
-// pgRefVerify walks the hash chain from root along key through lookup and returns
-// the value stored for key (nil if the nodes prove absence).
-func pgRefVerify(root [32]byte, key []byte, lookup func(h [32]byte) []byte) ([]byte, error) {
+// pgRefWalk walks the hash chain from root along key through lookup and returns
+// the value stored for key (nil if the nodes prove absence) and how the walk ended:
+// "found", "leaf-mismatch", "ext-mismatch", "nil-slot", "branch-value-empty".
+func pgRefWalk(root [32]byte, key []byte, lookup func(h [32]byte) []byte) ([]byte, string, error) {
 	var nib []byte
 	for _, b := range key {
 		nib = append(nib, b>>4, b&0x0f)
 	}
 	blob := lookup(root)
 	if blob == nil {
-		return nil, errPgRefMissing
+		return nil, "", errPgRefMissing
 	}
 	it, err := refrlp.Decode(blob)
 	if err != nil {
-		return nil, fmt.Errorf("reference walk: bad node: %v", err)
+		return nil, "", fmt.Errorf("reference walk: bad node: %v", err)
 	}
 	for {
 		if !it.IsList {
-			return nil, errors.New("reference walk: node is not a list")
+			return nil, "", errors.New("reference walk: node is not a list")
 		}
 		var child refrlp.Item
 		switch len(it.List) {
 		case 2:
 			if it.List[0].IsList {
-				return nil, errors.New("reference walk: short node key is a list")
+				return nil, "", errors.New("reference walk: short node key is a list")
 			}
 			p, term, ok := pgRefHPDecode(it.List[0].Str)
 			if !ok {
-				return nil, errors.New("reference walk: bad compact key")
+				return nil, "", errors.New("reference walk: bad compact key")
 			}
 			if term {
 				if bytes.Equal(p, nib) {
 					if it.List[1].IsList {
-						return nil, errors.New("reference walk: leaf value is a list")
+						return nil, "", errors.New("reference walk: leaf value is a list")
 					}
-					return it.List[1].Str, nil
+					return it.List[1].Str, "found", nil
 				}
-				return nil, nil
+				return nil, "leaf-mismatch", nil
 			}
 			if !bytes.HasPrefix(nib, p) {
-				return nil, nil
+				return nil, "ext-mismatch", nil
 			}
 			nib = nib[len(p):]
 			child = it.List[1]
 		case 17:
 			if len(nib) == 0 {
 				if it.List[16].IsList || len(it.List[16].Str) == 0 {
-					return nil, nil
+					return nil, "branch-value-empty", nil
 				}
-				return it.List[16].Str, nil
+				return it.List[16].Str, "found", nil
 			}
 			child = it.List[nib[0]]
 			nib = nib[1:]
 		default:
-			return nil, fmt.Errorf("reference walk: node with %d items", len(it.List))
+			return nil, "", fmt.Errorf("reference walk: node with %d items", len(it.List))
 		}
 		switch {
 		case child.IsList:
 			it = child // embedded node
 		case len(child.Str) == 0:
-			return nil, nil
+			return nil, "nil-slot", nil
 		case len(child.Str) == 32:
 			var h [32]byte
 			copy(h[:], child.Str)
 			blob := lookup(h)
 			if blob == nil {
-				return nil, errPgRefMissing
+				return nil, "", errPgRefMissing
 			}
 			if it, err = refrlp.Decode(blob); err != nil {
-				return nil, fmt.Errorf("reference walk: bad node: %v", err)
+				return nil, "", fmt.Errorf("reference walk: bad node: %v", err)
 			}
 		default:
-			return nil, fmt.Errorf("reference walk: child reference of %d bytes", len(child.Str))
+			return nil, "", fmt.Errorf("reference walk: child reference of %d bytes", len(child.Str))
 		}
 	}
 }
